@@ -281,156 +281,163 @@ fn dig<T: Hash + ?Sized>(t: &T) -> u64 {
     d.finish()
 }
 
-fn mk_str(ctor: u8, t: u8, cap: usize, arc: &Arc<str>) -> Cow<'static, str> {
-    let m = stab(t);
+fn mk_str(ctor: u8, m: &'static str, cap: usize, arc: &Arc<str>) -> Cow<'static, str> {
     match ctor {
         0 => Cow::from_borrowed(m),
         1 => Cow::const_str(m),
-        2 => {
+        2 => Cow::from(std::borrow::Cow::Borrowed(m)),
+        3 => {
             // owned, capacity `cap` requested (may be 0, may be < len: String grows), incl. len < cap
             let mut s = String::with_capacity(cap);
             s.push_str(m);
             Cow::from_owned(s)
         }
-        3 => Cow::from(String::from(m)), // From<String>, capacity == len (empty => capacity 0 => borrowed-kind empty)
-        4 => Cow::from_shared(arc.clone()),
-        5 => Cow::from(arc.clone()),     // From<Arc<T>>
-        6 => Cow::from(std::borrow::Cow::Borrowed(m)),
-        _ => Cow::from(std::borrow::Cow::Owned(String::from(m))),
+        4 => Cow::from(String::from(m)), // From<String>, capacity == len (empty => capacity 0 => borrowed-kind empty)
+        5 => Cow::from(std::borrow::Cow::Owned(String::from(m))),
+        6 => Cow::from_shared(arc.clone()),
+        _ => Cow::from(arc.clone()), // From<Arc<T>>
     }
 }
-pub const NCTOR_STR: u8 = 8;
 
+/// everything a reader can observe: deref, as_ref, borrow, ==, cmp, Hash -- all must agree with the model `m`
 fn check_str(c: &Cow<'static, str>, m: &'static str) {
     let s: &str = &**c;
     assert!(s.len() == m.len());
     assert!(s.as_bytes() == m.as_bytes(), "content reads back exactly");
-    assert!(c.as_ref() == m);
+    assert!(c.as_ref().as_ptr() == s.as_ptr());
     let b: &str = c.borrow();
-    assert!(b == m);
+    assert!(b.as_ptr() == s.as_ptr() && b.len() == s.len());
+    let mc: Cow<'static, str> = Cow::const_str(m);
+    assert!(*c == mc && mc == *c);
+    assert!(c.cmp(&mc) == Ordering::Equal);
+    assert!(c.partial_cmp(&mc) == Some(Ordering::Equal));
+    assert!(dig(c) == dig(m), "Hash of the Cow is the Hash of its content");
 }
+
+/// one step on (cur, other): 0 clone cur into other, 1 into_owned + wrap again, 2 drop cur, 3 swap
+fn str_step(op: u8, cur: &mut Option<Cow<'static, str>>, other: &mut Option<Cow<'static, str>>, m: &'static str, arc: &Arc<str>) {
+    match op {
+        0 => {
+            if let Some(c) = &*cur {
+                let before = Arc::strong_count(arc);
+                let d = c.clone();
+                match c.metadata.kind() {
+                    Kind::Shared => {
+                        assert!(Arc::strong_count(arc) == before + 1, "clone of a shared value takes one reference");
+                        assert!(d.ptr == c.ptr && d.metadata == c.metadata);
+                    }
+                    Kind::Owned => {
+                        assert!(Arc::strong_count(arc) == before);
+                        assert!(d.ptr != c.ptr, "clone of an owned value is a fresh allocation");
+                    }
+                    Kind::Borrowed => {
+                        assert!(Arc::strong_count(arc) == before);
+                        assert!(d.ptr == c.ptr && d.metadata == c.metadata);
+                    }
+                }
+                check_str(&d, m);
+                *other = Some(d); // a previous clone (if any) is dropped here
+            }
+        }
+        1 => {
+            if let Some(c) = cur.take() {
+                let before = Arc::strong_count(arc);
+                let (k, p, cp) = (c.metadata.kind(), c.ptr.as_ptr() as *const u8, c.metadata.capacity());
+                let s: String = c.into_owned();
+                assert!(s.as_bytes() == m.as_bytes(), "into_owned returns the content");
+                match k {
+                    Kind::Owned => {
+                        // same allocation handed back: no copy, nothing left behind to leak or free twice
+                        assert!(s.as_ptr() == p && s.capacity() == cp);
+                        assert!(Arc::strong_count(arc) == before);
+                    }
+                    Kind::Shared => assert!(Arc::strong_count(arc) == before - 1, "into_owned gives the reference back"),
+                    Kind::Borrowed => assert!(Arc::strong_count(arc) == before),
+                }
+                *cur = Some(Cow::from_owned(s)); // owned value -> Cow again keeps working
+            }
+        }
+        2 => {
+            if let Some(c) = cur.take() {
+                let before = Arc::strong_count(arc);
+                let k = c.metadata.kind();
+                drop(c);
+                assert!(Arc::strong_count(arc) == if is_shared(k) { before - 1 } else { before });
+            }
+        }
+        _ => core::mem::swap(cur, other),
+    }
+    if cur.is_none() {
+        *cur = other.take();
+    }
+    if let Some(c) = &*cur {
+        check_str(c, m);
+    }
+}
+pub const NOPS: u8 = 4;
 
 fn str_ops(ctor: u8, t: u8, cap: usize, ops: [u8; 3], nops: usize) {
     let m = stab(t);
     let arc: Arc<str> = Arc::from(m);
     assert!(Arc::strong_count(&arc) == 1);
     {
-        let c = mk_str(ctor, t, cap, &arc);
-        let shared0 = ctor == 4 || ctor == 5;
+        let c = mk_str(ctor, m, cap, &arc);
+        let shared0 = ctor >= 6;
         assert!(is_shared(c.metadata.kind()) == shared0);
+        assert!(ctor > 2 || is_borrowed(c.metadata.kind()));
         assert!(Arc::strong_count(&arc) == if shared0 { 2 } else { 1 });
         check_str(&c, m);
         let mut cur = Some(c);
         let mut other: Option<Cow<'static, str>> = None;
-        let mut step = 0;
-        while step < nops {
-            match ops[step] {
-                0 => {
-                    if let Some(c) = &cur {
-                        let before = Arc::strong_count(&arc);
-                        let d = c.clone();
-                        check_str(&d, m);
-                        match c.metadata.kind() {
-                            Kind::Shared => {
-                                assert!(Arc::strong_count(&arc) == before + 1, "clone of a shared value takes one reference");
-                                assert!(d.ptr == c.ptr);
-                            }
-                            Kind::Owned => {
-                                assert!(Arc::strong_count(&arc) == before);
-                                assert!(d.ptr != c.ptr, "clone of an owned value is a fresh allocation");
-                            }
-                            Kind::Borrowed => {
-                                assert!(Arc::strong_count(&arc) == before);
-                                assert!(d.ptr == c.ptr && d.metadata == c.metadata);
-                            }
-                        }
-                        other = Some(d); // a previous clone (if any) is dropped here
-                    }
-                }
-                1 => {
-                    if let Some(c) = &cur {
-                        check_str(c, m);
-                        let mc: Cow<'static, str> = Cow::const_str(m);
-                        assert!(*c == mc && mc == *c);
-                        assert!(c.cmp(&mc) == Ordering::Equal);
-                        assert!(c.partial_cmp(&mc) == Some(Ordering::Equal));
-                        if let Some(o) = &other {
-                            assert!(c == o);
-                        }
-                    }
-                }
-                2 => {
-                    if let Some(c) = &cur {
-                        assert!(dig(c) == dig(m), "Hash of the Cow is the Hash of its content");
-                    }
-                }
-                3 => {
-                    if let Some(c) = cur.take() {
-                        let before = Arc::strong_count(&arc);
-                        let (k, p, cp) = (c.metadata.kind(), c.ptr.as_ptr() as *const u8, c.metadata.capacity());
-                        let s: String = c.into_owned();
-                        assert!(s.as_bytes() == m.as_bytes());
-                        match k {
-                            Kind::Owned => {
-                                // same allocation handed back: no copy, nothing left behind to leak or free twice
-                                assert!(s.as_ptr() == p && s.capacity() == cp);
-                                assert!(Arc::strong_count(&arc) == before);
-                            }
-                            Kind::Shared => assert!(Arc::strong_count(&arc) == before - 1, "into_owned gives the reference back"),
-                            Kind::Borrowed => assert!(Arc::strong_count(&arc) == before),
-                        }
-                        cur = Some(Cow::from_owned(s)); // and back again (owned -> Cow) keeps working
-                    }
-                }
-                4 => {
-                    if let Some(c) = cur.take() {
-                        let before = Arc::strong_count(&arc);
-                        drop(c);
-                        assert!(Arc::strong_count(&arc) <= before);
-                    }
-                }
-                _ => {
-                    core::mem::swap(&mut cur, &mut other);
-                }
-            }
-            if cur.is_none() {
-                cur = other.take();
-            }
-            step += 1;
-        }
-        if let Some(c) = &cur {
-            check_str(c, m);
-        }
+        if nops > 0 { str_step(ops[0], &mut cur, &mut other, m, &arc); }
+        if nops > 1 { str_step(ops[1], &mut cur, &mut other, m, &arc); }
+        if nops > 2 { str_step(ops[2], &mut cur, &mut other, m, &arc); }
         if let Some(c) = &other {
             check_str(c, m);
         }
         kani::cover!(cur.is_some() && other.is_some());
+        kani::cover!(cur.is_none());
     }
     // every Cow is gone: all Arc references taken were given back, the Arc's content was never touched
     assert!(Arc::strong_count(&arc) == 1, "every Arc reference taken is given back exactly once");
-    assert!(&*arc == m);
+    assert!(arc.as_bytes() == m.as_bytes());
 }
 
-pub fn c14_str_ops2_body(ctor: u8, t: u8, cap: usize, op1: u8, op2: u8) {
-    kani::assume(ctor < NCTOR_STR && t < NSTR && cap <= 4 && op1 < 6 && op2 < 6);
-    str_ops(ctor, t, cap, [op1, op2, 0], 2);
+// construction class is fixed per harness (0 = borrowed ctors 0..2, 1 = owned ctors 3..5, 2 = shared ctors 6..7)
+fn str_class(class: u8, which: u8, t: u8, cap: usize, ops: [u8; 3], nops: usize) {
+    kani::assume(t < NSTR && cap <= 4 && ops[0] < NOPS && ops[1] < NOPS && ops[2] < NOPS);
+    kani::assume(which < if class == 2 { 2 } else { 3 });
+    str_ops(class * 3 + which, t, cap, ops, nops);
+}
+
+pub fn c14_str_borrowed_body(which: u8, t: u8, op1: u8, op2: u8, op3: u8) {
+    str_class(0, which, t, 0, [op1, op2, op3], 3);
 }
 #[cfg(kani)]
 #[kani::proof]
-#[kani::unwind(10)]
-fn c14_str_ops2() {
-    c14_str_ops2_body(kani::any(), kani::any(), kani::any(), kani::any(), kani::any());
+#[kani::unwind(6)]
+fn c14_str_borrowed() {
+    c14_str_borrowed_body(kani::any(), kani::any(), kani::any(), kani::any(), kani::any());
 }
 
-pub fn c14_str_ops3_body(ctor: u8, t: u8, cap: usize, op1: u8, op2: u8, op3: u8) {
-    kani::assume(ctor < NCTOR_STR && t < NSTR && cap <= 4 && op1 < 6 && op2 < 6 && op3 < 6);
-    str_ops(ctor, t, cap, [op1, op2, op3], 3);
+pub fn c14_str_owned_body(which: u8, t: u8, cap: usize, op1: u8, op2: u8) {
+    str_class(1, which, t, cap, [op1, op2, 0], 2);
 }
 #[cfg(kani)]
 #[kani::proof]
-#[kani::unwind(10)]
-fn c14_str_ops3() {
-    c14_str_ops3_body(kani::any(), kani::any(), kani::any(), kani::any(), kani::any(), kani::any());
+#[kani::unwind(6)]
+fn c14_str_owned() {
+    c14_str_owned_body(kani::any(), kani::any(), kani::any(), kani::any(), kani::any());
+}
+
+pub fn c14_str_shared_body(which: u8, t: u8, op1: u8, op2: u8) {
+    str_class(2, which, t, 0, [op1, op2, 0], 2);
+}
+#[cfg(kani)]
+#[kani::proof]
+#[kani::unwind(6)]
+fn c14_str_shared() {
+    c14_str_shared_body(kani::any(), kani::any(), kani::any(), kani::any());
 }
 
 // ------------------------------------------------------------------------------------------------ [T], T with a destructor (bounded)
